@@ -750,6 +750,17 @@ func c20Search(t *testing.T, r *hx.Run, name string, n int, concurrent bool) {
 			"prepare": func(t *rapid.T) {
 				add(c20Op{Op: "prepare", Pkgs: rapid.SliceOfN(pk, 1, 3).Draw(t, "ps")})
 			},
+			// several packages listed by one Prepare, then a dependency of one of them changes and
+			// that package is looked up: its entry must have kept its own dependencies
+			"prepare-bump-find": func(t *rapid.T) {
+				ps := rapid.SliceOfNDistinct(rapid.IntRange(0, c20Known-1), 2, 3, func(i int) int { return i }).Draw(t, "ps")
+				add(c20Op{Op: "prepare", Pkgs: ps})
+				p := ps[rapid.IntRange(0, len(ps)-1).Draw(t, "which")]
+				if ds := c.Deps[p]; len(ds) > 0 {
+					add(c20Op{Op: "bump", Pkg: ds[rapid.IntRange(0, len(ds)-1).Draw(t, "dep")]})
+				}
+				add(c20Op{Op: "find", Pkg: p})
+			},
 			"bump":  func(t *rapid.T) { add(c20Op{Op: "bump", Pkg: rapid.IntRange(0, c20Known-1).Draw(t, "p")}) },
 			"bump2": func(t *rapid.T) { add(c20Op{Op: "bump", Pkg: rapid.IntRange(2, c20Known-1).Draw(t, "p")}) },
 			"sethash": func(t *rapid.T) {
@@ -788,7 +799,7 @@ func c20Search(t *testing.T, r *hx.Run, name string, n int, concurrent bool) {
 			for _, k := range []string{"concurrent2", "concurrent3", "concurrent4"} {
 				actions[k] = actions["concurrent"]
 			}
-			for _, k := range []string{"corrupt", "sethash", "skipdep", "prepare", "find2", "saveload"} {
+			for _, k := range []string{"corrupt", "sethash", "skipdep", "prepare", "prepare-bump-find", "find2", "saveload"} {
 				delete(actions, k)
 			}
 		}
